@@ -1095,6 +1095,17 @@ class ExecComp(ExplicitComponent):
         for inp, (ival, _) in self._indict.items():
             psize = ival.size
 
+            if has_diag_partials and psize > 1:
+                # a size 1 output has a dense (1 x psize) partial wrt this input.  Perturbing all
+                # entries at once would only give the sum of that row, so those partials are
+                # computed one input entry at a time below.
+                loop_outs = [u for u in out_names
+                             if (u, inp) in partials and vdict[u][0].size == 1]
+            elif psize == 1:
+                loop_outs = ()
+            else:
+                loop_outs = out_names
+
             if has_diag_partials or psize == 1:
                 # set a complex inpup value
                 ival += step
@@ -1103,7 +1114,7 @@ class ExecComp(ExplicitComponent):
                 self._exec()
 
                 for u in out_names:
-                    if (u, inp) in partials:
+                    if (u, inp) in partials and u not in loop_outs:
                         subval, subval_is_scalar = vdict[u]
                         if subval_is_scalar:
                             partials[u, inp] = imag(subval * inv_stepsize)
@@ -1112,7 +1123,8 @@ class ExecComp(ExplicitComponent):
 
                 # restore old input value
                 ival -= step
-            else:
+
+            if loop_outs:
                 for i, idx in enumerate(array_idx_iter(ival.shape)):
                     # set a complex input value
                     ival[idx] += step
@@ -1120,7 +1132,7 @@ class ExecComp(ExplicitComponent):
                     # solve with complex input value
                     self._exec()
 
-                    for u in out_names:
+                    for u in loop_outs:
                         if (u, inp) in partials:
                             # set the column in the Jacobian entry
                             subval, subval_is_scalar = vdict[u]
